@@ -81,6 +81,23 @@ def _c06_exact_body(case):
         bad = not (err <= TOL * scale)
         rep = rep or bad
         out.append(dict(step_ratio=r, degree=D, expected=b[case['n']], got=der.tolist(), err=err, tol=TOL * scale))
+    # the same with a complex-valued polynomial (complex coefficients, real steps; real-step methods only)
+    if case['method'] in ('central', 'forward', 'backward'):
+        for r in case['step_ratios'][:1]:
+            rule = fd.LogRule(n=case['n'], method=case['method'], order=case['order'])
+            D = case['n'] + rule.method_order - 1
+            w = rule.rule(r)
+            K = len(w) + 2
+            b = [complex(v, (-1) ** k * 0.5 * (v + 0.3)) for k, v in enumerate(_coefs(D))]
+            f = _poly(b, case['x'])
+            steps = [case['h'] * r ** (-k) for k in range(K)]
+            fdel = [rule.diff(f, f(case['x']), case['x'], hk) for hk in steps]
+            der = np.asarray(rule.apply(fdel, steps, r)[0]).ravel()
+            scale = max(1.0, abs(b[case['n']]), float(np.max(np.abs(w)) * np.max(np.abs(fdel)) / min(steps) ** case['n']) * 1e-10)
+            err = float(np.max(np.abs(der - b[case['n']])))
+            if not err <= TOL * scale:
+                rep = True
+                out.append(dict(step_ratio=r, degree=D, complex_valued=True, expected=str(b[case['n']]), got=[str(v) for v in der.tolist()], err=err, tol=TOL * scale))
     return dict(reproduced=rep, statement='rule applied to the difference quotient of a polynomial of degree '
                 '< n + method_order must return its n-th derivative', runs=out)
 
